@@ -959,6 +959,30 @@ func init() {
 		"sameMap": func(m *Machine, st *State, fr *Frame, instr ssa.Instruction, fn *ssa.Function, args []Value) Value {
 			return m.ctx.Eq(args[0].(*Term), args[1].(*Term))
 		},
+		"closureVarN": func(m *Machine, st *State, fr *Frame, instr ssa.Instruction, fn *ssa.Function, args []Value) Value {
+			f := args[0].(*Term)
+			name := constStringArg(instr, 1)
+			vname := constStringArg(instr, 2)
+			target := m.P.Funcs[name]
+			rt := fn.Signature.Results().At(0).Type()
+			idx := -1
+			if target != nil {
+				for i, fv := range target.FreeVars {
+					if fv.Name() == vname {
+						idx = i
+					}
+				}
+			}
+			if idx < 0 {
+				m.problem("closureVarN: function %q / captured variable %q not found in the current tree", name, vname)
+				return m.ts.Zero(rt)
+			}
+			if !types.Identical(target.FreeVars[idx].Type(), rt) {
+				m.problem("closureVarN: captured variable %s of %s has type %s, clause expects %s", vname, name, target.FreeVars[idx].Type(), rt)
+				return m.ts.Zero(rt)
+			}
+			return m.closureBindings(st, f, target)[idx]
+		},
 		"sameFunc": func(m *Machine, st *State, fr *Frame, instr ssa.Instruction, fn *ssa.Function, args []Value) Value {
 			return m.ctx.Eq(args[0].(*Term), args[1].(*Term))
 		},
